@@ -180,14 +180,14 @@ def idict_run(ops: List[Tuple[str, int, Any]]) -> Optional[str]:
 
 
 def _s1(sh: Dict[str, Any]) -> Dict[str, Any]:
-    length, first = sh["len"], sh["first"]
+    length, first, second = sh["len"], sh["first"], sh.get("second")
     cex: List[Dict[str, Any]] = []
     samples: List[Any] = []
 
     def harness(e: Engine) -> None:
         ops = []
         for s in range(length):
-            op = OPS[first] if s == 0 else OPS[e.choice(f"op{s}", len(OPS))]
+            op = OPS[first] if s == 0 else OPS[second] if (s == 1 and second is not None) else OPS[e.choice(f"op{s}", len(OPS))]
             k = e.choice(f"key{s}", 3) if op not in ("len", "iter", "popitem", "clear", "items") else 0
             v = e.int(f"val{s}") if op in ("set", "setdefault", "update") else None
             ops.append((op, k, v))
@@ -199,7 +199,7 @@ def _s1(sh: Dict[str, Any]) -> Dict[str, Any]:
 
     eng = Engine(max_seconds=sh.get("budget", 200) * (6 if os.environ.get("VERIF_TIER_EFFECTIVE") == "thorough" else 1))
     eng.explore(harness)
-    return par.shard_result(eng, shard=f"idict first={OPS[first]}", cex=cex, samples=samples)
+    return par.shard_result(eng, shard=f"idict first={OPS[first]}" + (f" second={OPS[second]}" if second is not None else ""), cex=cex, samples=samples)
 
 
 # ------------------------------------------------------------------ 2
@@ -592,7 +592,8 @@ def run(rep: Any, tier: str, seed: int) -> None:
                   "towers": f"depth 0..{3 if tier == 'quick' else 4} over {LAYERS}", "nested paths": len(NEST_PATHS),
                   "customize": "2^3 flags x 5 elaborate kinds (absent, None, replacement, PRUNE, []) x 2 forms"}
     rep.outside = ["towers deeper than the bound", "callables implemented in C", "PyPy"]
-    res = par.run_shards("harness.c12", "_s1", [{"len": L1, "first": f} for f in range(len(OPS))])
+    res = par.run_shards("harness.c12", "_s1", [{"len": L1, "first": f} for f in range(len(OPS))] if tier == "quick" else
+                         [{"len": L1, "first": f, "second": g} for f in range(len(OPS)) for g in range(len(OPS))])
     for c in par.fold(rep, OB1, res):
         rep.counterexample(OB1, c, c["why"])
     res = par.run_shards("harness.c12", "_s2", [{"maxregs": 3 if tier == "quick" else 4}])
